@@ -1431,8 +1431,9 @@ class VacancyMediated(object):
         :return Lvv1[3, 3]: vacancy-vacancy correction due to solute; needs to be multiplied by cv*cs/kBT
         """
         # 1. bare vacancy diffusivity and Green's function
-        vTK = vacancyThermoKinetics(pre=np.ones_like(bFV), betaene=bFV,
-                                    preT=np.ones_like(bFT0), betaeneT=bFT0)
+        # (the key keeps its own copies: the caller may reuse its input buffers, and addhdf5 writes the keys' current contents)
+        vTK = vacancyThermoKinetics(pre=np.ones_like(bFV), betaene=np.array(bFV),
+                                    preT=np.ones_like(bFT0), betaeneT=np.array(bFT0))
         GF = self.GFvalues.get(vTK)
         L0vv = self.Lvvvalues.get(vTK)
         etav = self.etavvalues.get(vTK)
